@@ -231,7 +231,8 @@ CHECKS = {
              "ordinary parameters) the libraries come from the TLA+ grammar: the wide member printed by LibGenPairs "
              "(every pairing of two parameter rows, every result row with every parameter row; with and without "
              "F_CFI) and libraries sampled by TLC -simulate over LibGen (3 quick / 160 thorough).",
-        note="Trusted as C02, plus gfortran 12. Not covered: language c subject library, char** rows. With F_CFI the "
+        note="Trusted as C02, plus gfortran 12. The wide library is also written and declared as C (language: c; rows a C "
+             "library can have), driven by the same Fortran source. Not covered: char** rows. With F_CFI the "
              "functions of the recorded C05 finding (string + vector/pointer-extent) are left out: Shroud stops on them.",
     ),
     "C10": dict(
